@@ -112,6 +112,10 @@ def run(ck, ctx):
     # into a result: the nested objects would be shared by every statement and every parse of the process
     for f in scope:
         mut = {n: v for n, v in f.module.assigns.items() if _nested_mutable(v)}
+        for local, imp in f.module.imports.items():
+            r = m.resolve_symbol(f.module, local)
+            if r and r[0] == "value" and _nested_mutable(r[1].assigns.get(r[2])):
+                mut[local] = r[1].assigns[r[2]]
         if not mut:
             continue
         parents = {}
